@@ -43,6 +43,8 @@ def plan(tier, seed):
     for i in range(4):
         specs.append(("truncations", i, 4))
     specs += [("keyword-names", i, 2) for i in range(2)]
+    specs += [("quoted-text", i, 8) for i in range(8)]
+    specs.append(("cross-file-notes",))
     specs.append(("large-inputs",))
     n = 8000 if tier == "quick" else 100000
     for i in range(16):
@@ -72,6 +74,8 @@ def asan_plan(tier):
     specs += [("truncations", i, 4) for i in range(4)]
     specs += [("keyword-names", i, 2) for i in range(2)]
     specs += [("multifile", 40 * k, 100 + i) for i in range(8)]
+    specs += [("quoted-text", i, 8) for i in range(8)]
+    specs.append(("cross-file-notes",))
     specs += [("valid-programs", 25 * k, i) for i in range(16)]
     return specs
 
@@ -289,6 +293,19 @@ def run_shard(ctx, spec):
         ctx.stats["eol_defect_cases"] += len(batch)
         if idx == 0:
             ctx.sample({"family": "defect at the end of a line x line ending x context", "example": batch[len(batch) // 2]["files"][0]}, limit=1)
+    elif kind == "quoted-text":
+        _, idx, n = spec
+        batch = [{"files": [t], "key": k} for i, (k, t) in enumerate(fam.quoted_text_programs()) if i % n == idx]
+        if ctx.profile == "asan":
+            batch = batch[::8]
+        for k0 in range(0, len(batch), 500):
+            scr.run(batch[k0:k0 + 500], sample_rate=0.01)
+        ctx.stats["quoted_text_cases"] += len(batch)
+    elif kind == "cross-file-notes":
+        batch = [{"files": t, "key": k} for k, t in fam.cross_file_note_programs()]
+        for shift in range(3):   # the screen alternates the output format by position: every case is rendered in both
+            scr.run(batch[shift:], sample_rate=0.1)
+        ctx.stats["cross_file_note_cases"] += len(batch)
     elif kind == "alias-graphs":
         _, count, idx = spec
         rng = ctx.rng("aliasgraph/%d" % idx)
